@@ -253,14 +253,18 @@ def fam_class():
         'symbol-iter': ("*[Symbol.iterator](){ yield 'a'; yield 'b'; }", "[...new C()]"), 'static-private': ("static #sp = 9; static gsp(){ return C.#sp; }", "C.gsp()"),
         'new-target': ("constructor(){ this.nt = new.target === C; }", "new C().nt"), 'arrow-this': ("f = () => this; ", "(function(){ var c=new C(); return c.f() === c; })()"),
         'in-private': ("#b = 1; static has(o){ return #b in o; }", "[C.has(new C()), C.has({})]"),
+        'computed-field': ("['cf' + 1] = 'cf1';", "[new C().cf1, Object.keys(new C())]"), 'computed-static-field': ("static ['sf' + 2] = 'sf2';", "[C.sf2, Object.keys(C)]"),
+        'numeric-field': ("7 = 'seven'; static 1.5 = 'h';", "[new C()[7], C['1.5']]"), 'symbol-field': ("[Symbol.for('fs')] = 's';", "[new C()[Symbol.for('fs')], Object.keys(new C()).length]"),
+        'computed-field-once': ("[(C_n = (typeof C_n == 'number' ? C_n : 0) + 1, 'n' + C_n)] = 1;", "[Object.keys(new C()), Object.keys(new C()), C_n]"),
+        'computed-accessor': ("get ['ga' + 1](){ return 'ga'; } static set ['sa'](v){ C.sav = v; }", "(function(){ C.sa = 3; return [new C().ga1, C.sav]; })()"),
     }
     keys = list(feats)
     for k in keys:
-        out.append(Case("class:1:%s" % k, wrap_fn("class C { %s } return %s;" % feats[k])))
+        out.append(Case("class:1:%s" % k, wrap_fn("var C_n; class C { %s } return %s;" % feats[k])))
     for a, b in itertools.combinations(keys, 2):
         if feats[a][0].startswith('constructor') and feats[b][0].startswith('constructor'):
             continue
-        out.append(Case("class:2:%s+%s" % (a, b), wrap_fn("class C { %s %s } return [%s, %s];" % (feats[a][0], feats[b][0], feats[a][1], feats[b][1])), quick=True))
+        out.append(Case("class:2:%s+%s" % (a, b), wrap_fn("var C_n; class C { %s %s } return [%s, %s];" % (feats[a][0], feats[b][0], feats[a][1], feats[b][1])), quick=True))
     # inheritance matrix
     bases = {'class': "class B { constructor(x){ this.bx = x; } bm(){ return 'bm'; } static bs(){ return 'bs'; } get bg(){ return 'bg'; } }",
              'function': "function B(x){ this.bx = x; } B.prototype.bm = function(){ return 'bm'; }; B.bs = function(){ return 'bs'; };",
@@ -488,10 +492,98 @@ def fam_lib():
     return ded
 
 
+# ------------------------------------------------------------------ M-await: `await` in every expression position
+# Programs are async functions over settled promises only; the observation is the one line logged when the
+# function's promise settles (so the divergence in reaction ordering, DESIGN 10.4, cannot show).
+AW_VALS = ['P(2)', '3', 'P("s")', 'P(0)', 'P(null)', 'P([1,2])', 'R("boom")', 'P(P(7))']
+AW_CTX = [
+    "return await {a};", "return await {a} + 1;", "return 1 + await {a};", "return await {a} + await {b};", "return await {a} * 2 - await {b};", "return -await {a};", "return !await {a};",
+    "return typeof await {a};", "return void await {a};", "return await {a} ? 'y' : 'n';", "return c ? await {a} : await {b};", "return await {a} || 'd';", "return await {a} && await {b};",
+    "return await {a} ?? await {b};", "return await {a} === await {a};", "return await {a} < await {b};", "return [await {a}, await {b}];", "return {{x: await {a}, [await {b}]: 1}};",
+    "return f(await {a});", "return f(1, await {a}, await {b});", "return `x${{await {a}}}y${{await {b}}}`;", "return (await {a});", "return (await {a}, 7);", "var x; x = await {a}; return x;",
+    "var x = 1; x += await {a}; return x;", "var o = {{2: 'two', s: 'ess'}}; return o[await {a}];", "return (await {a}).toString();", "return new C(await {a}).v;", "return await await {a};",
+    "return [...await {a}];", "var o = []; for (const x of await {a}) o.push(x); return o;", "if (await {a}) return 'T'; else return 'F';", "var n = 0; while (await {a} && n < 3) n++; return n;",
+    "try {{ return await {a}; }} finally {{ L('fin'); }}", "try {{ await {a}; return 'no'; }} catch (e) {{ return 'caught ' + e; }}", "throw await {a};",
+    "switch (await {a}) {{ case await {b}: return 'same'; case 2: return 'two'; default: return 'd'; }}", "return await (async () => await {a})();", "var {{v = await {a}}} = {{}}; return v;",
+    "var [p, q = await {b}] = [await {a}]; return [p, q];", "return await {a} instanceof Array;", "return 'k' in {{k: await {a}}};", "return await {a} == await {b} ? await {a} : await {b};",
+    "var g = async (z) => z + await {a}; return await g(10) + await g(20);", "var r = 0; for (var i = 0; i < await {a}; i++) r += i; return r;", "return await {a} ** 2;", "return (await {a})?.length;",
+    "return delete (await {a})[0];", "var o = {{m(v) {{ return v; }}}}; return o.m(await {a});", "return (await {a}, await {b});", "var t = [await {a}]; t[0] = await {b}; return t;",
+]
+AW_OPS = ['+', '-', '*', '/', '%', '==', '!=', '===', '!==', '<', '<=', '>', '>=', '&', '|', '^', '<<', '>>', '>>>', '&&', '||', '??', ',', 'in', 'instanceof']
+
+
+AW_PROGS = {
+    'for-await-array': "var o = []; for await (const x of [P(1), 2, P(3)]) o.push(x); return o;",
+    'for-await-asyncgen': "async function* g(){ yield 1; yield await P(2); L('mid'); yield P(3); return 4; } var o = []; for await (const x of g()) o.push(x); return o;",
+    'asyncgen-manual': "async function* g(){ var got = yield 1; L('got ' + got); try { yield 2; } finally { L('fin'); } } var it = g(); var a = await it.next(); var b = await it.next('v'); var c = await it.return('r'); var d = await it.next(); return [a, b, c, d];",
+    'asyncgen-throw': "async function* g(){ try { yield 1; } catch (e) { L('c ' + e); yield 'recovered'; } } var it = g(); await it.next(); var r = await it.throw('T'); return [r, await it.next()];",
+    'for-await-break': "async function* g(){ try { yield 1; yield 2; yield 3; } finally { L('closed'); } } var o = []; for await (const x of g()) { o.push(x); if (x == 2) break; } return o;",
+    'for-await-rejects': "var o = []; try { for await (const x of [P(1), R('bad'), P(3)]) o.push(x); } catch (e) { o.push('caught ' + e); } return o;",
+    'class-async-methods': "class K { constructor(){ this.b = 5; } async m(x){ return await x + this.b; } static async s(x){ return (await x) * 2; } async *ag(){ yield await P(this.b); } } var k = new K(); var o = []; for await (const v of k.ag()) o.push(v); return [await k.m(P(1)), await K.s(4), o];",
+    'object-async-methods': "var ob = { v: 2, async m(){ return await P(this.v) + 1; }, am: async (z) => await z }; return [await ob.m(), await ob.am(P(9))];",
+    'try-catch-finally-awaits': "try { L(await P('t')); throw await P('x'); } catch (e) { L('c' + await P(e)); return await P('ret'); } finally { L(await P('f')); }",
+    'finally-overrides': "async function g(){ try { return await P(1); } finally { await P(0); L('f'); } } async function h(){ try { throw await P('e'); } finally { return await P('over'); } } return [await g(), await h()];",
+    'loop-break-continue': "var o = []; outer: for (var i = 0; i < await P(4); i++) { for (var j = 0; j < 3; j++) { if (await P(j) == 1) continue outer; if (i == await P(3)) break outer; o.push(i + ':' + j); } } return o;",
+    'do-while-await': "var n = 0; do { n += await P(2); } while (await P(n) < 5); return n;",
+    'promise-all-destructure': "var [a, {b}, ...rest] = await Promise.all([P(1), P({b: 2}), 3, P(4)]); return [a, b, rest];",
+    'all-settled-race-any': "var s = await Promise.allSettled([P(1), R('no')]); return [s.map(function(x){ return x.status; }), await Promise.race([P('first'), P('second')]), await Promise.any([R('a'), P('ok')])];",
+    'await-nonpromise-object': "var ob = {k: 1}; return (await ob) === ob;",
+    'await-in-args-order': "function g(a, b, c){ return [a, b, c]; } return g(L('1') || await P('a'), L('2') || await P('b'), L('3') || 'c');",
+    'await-closure-capture': "var fs = []; for (let i = 0; i < 3; i++) { await P(i); fs.push(function(){ return i; }); } return fs.map(function(h){ return h(); });",
+    'await-recursion': "async function fact(n){ return n <= 1 ? 1 : n * await fact(n - 1); } return await fact(6);",
+    'await-rejection-propagates': "async function inner(){ await R(new TypeError('x')); L('not reached'); } async function outer(){ try { await inner(); } catch (e) { return e.name; } } return await outer();",
+    'await-throw-in-async-arrow': "var h = async () => { throw new RangeError('r'); }; try { await h(); } catch (e) { return e instanceof RangeError; }",
+    'then-chain': "return await P(1).then(function(v){ return v + 1; }).then(function(v){ return P(v * 10); }).catch(function(){ return 'no'; }).finally(function(){ L('fin'); });",
+    'catch-chain': "return await R('e1').then(function(){ return 'no'; }).catch(function(e){ return 'c:' + e; }).then(function(v){ throw v + '!'; }).catch(function(e){ return e; });",
+    'await-in-switch-and-ternary': "var o = []; for (var i = 0; i < 3; i++) { switch (await P(i)) { case 0: o.push(await P('z')); break; case await P(1): o.push(i ? await P('o') : 'x'); default: o.push('d'); } } return o;",
+    'await-in-template-and-member': "var ob = {k: {v: 'deep'}}; return `${(await P(ob)).k.v}-${(await P([1, 2, 3]))[await P(1)]}`;",
+    'await-assign-ops': "var x = 1; x += await P(2); x *= await P(3); x **= await P(2); var ob = {n: 1}; ob.n += await P(4); ob['n'] -= await P(1); return [x, ob.n];",
+    'await-logical-assign': "var a = null, b = 0, d = 1; a ??= await P('A'); b ||= await P('B'); d &&= await P('D'); return [a, b, d];",
+    'await-short-circuit': "var r = [false && await P(L('no1')), true || await P(L('no2')), 1 ?? await P(L('no3'))]; return r;",
+    'await-getter-and-this': "class G { get v(){ return P(7); } async run(){ return await this.v + 1; } } return await new G().run();",
+    'async-iife-and-nested': "var r = await (async function(){ return await (async () => await P('in'))() + '!'; })(); return r;",
+    'await-optional-chain': "var n = null, ob = {f(){ return P('called'); }}; return [await n?.f(), await ob?.f(), (await P(null))?.x];",
+    'await-spread-args': "function g(){ return arguments.length; } return [g(...await P([1, 2, 3])), [0, ...await P('ab')], {...await P({q: 1})}];",
+    'await-new-and-instanceof': "class T { constructor(v){ this.v = v; } } var t = new T(await P(3)); return [t.v, await P(t) instanceof T, typeof await P(T)];",
+    'await-comma-and-void': "var x = (await P(1), await P(2)); return [x, void await P(3), typeof void 0];",
+    'await-unary-mix': "return [-await P(2), +await P('3'), !await P(0), ~await P(5), typeof await P('s'), - -await P(1)];",
+    'await-compare-chain': "return [await P(1) < await P(2) === true, await P(2) > await P(1) == await P(true), await P(1) + await P(2) * await P(3)];",
+    'await-in-array-holes-and-index': "var arr = [10, 20, 30]; arr[await P(1)] = await P('set'); return [arr, arr[await P(2)], arr.length];",
+    'await-in-computed-class-member': "var key = await P('dyn'); class Q { [key](){ return 'm'; } static [key + 'S'] = 'st'; } return [new Q().dyn(), Q.dynS];",
+    'await-in-default-destructure': "var {a = await P('da'), b = await P(L('no') || 'db')} = {b: 1}; var [c = await P('dc')] = []; return [a, b, c];",
+    'await-generator-interplay': "function* sg(){ yield P(1); yield P(2); } var o = []; for (const p of sg()) o.push(await p); return o;",
+    'await-in-while-condition-with-side-effects': "var q = [P(3), P(2), P(0), P(9)]; var o = []; var v; while ((v = await q.shift())) o.push(v); return [o, q.length];",
+}
+
+
+def aw_wrap(body):
+    return (PRINTER + "\n/*async*/ function P(v){ return Promise.resolve(v); } function R(v){ return Promise.reject(v); } function f(){ return [].slice.call(arguments); } function C(v){ this.v = v; }\n"
+            "var LOGS = []; function L(v){ LOGS.push(v); } var c = true;\nasync function __main(){\n" + body + "\n}\n"
+            "__main().then(function(v){ console.log('R ' + __s([v, LOGS])); }, function(e){ console.log('E ' + (e instanceof Error ? e.name : __s(e)) + ' ' + __s(LOGS)); });\n0")
+
+
+def fam_await():
+    out = []
+    for ci, ctx in enumerate(AW_CTX):
+        two = '{b}' in ctx
+        for a in AW_VALS:
+            for b in (AW_VALS[:4] + ['R("bad")'] if two else ['0']):
+                out.append(Case("await:ctx%d:%s:%s" % (ci, a, b), aw_wrap(ctx.format(a=a, b=b))))
+    for k, body in AW_PROGS.items():
+        out.append(Case("await:prog:" + k, aw_wrap(body)))
+    for op in AW_OPS:
+        for a in ['P(2)', 'P("1")', 'P(0)', 'P(null)', '5']:
+            for b in ['P(3)', 'P("1")', 'P([])', 'P({2: 1})', '1']:
+                e = "await %s %s await %s" % (a, op, b)
+                out.append(Case("await:op:" + e, aw_wrap("return [%s, 1 + %s, %s + 1, !(%s)];" % (e, e, e, e))))
+    return out
+
+
 FAMILIES = {
     'expr': fam_expr, 'forms': fam_forms, 'flow1': lambda: fam_flow(1), 'flow2': lambda: fam_flow(2), 'scope': fam_scope, 'pattern': fam_pattern,
     'class': fam_class, 'gen': lambda: fam_gen(4), 'lib': fam_lib,
+    'await': fam_await,
     'flow3': lambda: fam_flow(3, quick=False), 'expr2': fam_expr2,
 }
-QUICK_FAMILIES = ['expr', 'forms', 'flow1', 'flow2', 'scope', 'pattern', 'class', 'gen', 'lib']
+QUICK_FAMILIES = ['expr', 'forms', 'flow1', 'flow2', 'scope', 'pattern', 'class', 'gen', 'lib', 'await']
 THOROUGH_ONLY = ['flow3', 'expr2']
